@@ -23,6 +23,7 @@ pub enum OwnN {
     Funnel,
     Steep { c: f64 },                          // -c sum x^4
     HalfLine,                                  // sum ln x - x
+    SqrtLine,                                  // sum ln sqrt(x) - x: log-density AND gradient are NaN for x < 0
 }
 impl OwnN {
     pub fn logp(&self, x: &[f64]) -> f64 {
@@ -37,6 +38,7 @@ impl OwnN {
             }
             OwnN::Steep { c } => -c * x.iter().map(|t| t.powi(4)).sum::<f64>(),
             OwnN::HalfLine => x.iter().map(|v| v.ln() - v).sum(),
+            OwnN::SqrtLine => x.iter().map(|v| v.sqrt().ln() - v).sum(),
         }
     }
     pub fn grad(&self, x: &[f64]) -> Vec<f64> {
@@ -53,6 +55,7 @@ impl OwnN {
             }
             OwnN::Steep { c } => x.iter().map(|t| -4.0 * c * t.powi(3)).collect(),
             OwnN::HalfLine => x.iter().map(|v| 1.0 / v - 1.0).collect(),
+            OwnN::SqrtLine => x.iter().map(|v| 0.5 / (v.sqrt() * v.sqrt()) - 1.0).collect(),
         }
     }
 }
@@ -96,6 +99,14 @@ pub struct HalfLineN;
 impl<T: Float, B: AutodiffBackend> GradientTarget<T, B> for HalfLineN {
     fn unnorm_logp(&self, x: Tensor<B, 1>) -> Tensor<B, 1> {
         (x.clone().log() - x).sum()
+    }
+}
+
+#[derive(Clone)]
+pub struct SqrtLineN;
+impl<T: Float, B: AutodiffBackend> GradientTarget<T, B> for SqrtLineN {
+    fn unnorm_logp(&self, x: Tensor<B, 1>) -> Tensor<B, 1> {
+        (x.clone().sqrt().log() - x).sum()
     }
 }
 
